@@ -391,6 +391,16 @@ pub struct Case {
     pub rep: Rep,
     pub entry: Entry,
     pub fault: Option<IterFault>,
+    /// the regex is built through RegexBuilder::case_insensitive(true)
+    pub ci: bool,
+}
+
+/// Regex::new, or the builder with its case-insensitive option
+fn compile_opt(pattern: &str, ci: bool) -> Option<Regex> {
+    if !ci {
+        return compile(pattern);
+    }
+    std::panic::catch_unwind(|| fancy_regex::RegexBuilder::new(pattern).case_insensitive(true).build()).ok().and_then(|r| r.ok())
 }
 
 impl Case {
@@ -403,6 +413,7 @@ impl Case {
             "rep": self.rep.to_json(),
             "entry": self.entry.name(),
             "fault": self.fault.as_ref().map(|f| json!([f.j, f.kind, f.val])),
+            "ci": self.ci,
         })
     }
     fn from_json(v: &Value) -> Option<Case> {
@@ -416,6 +427,7 @@ impl Case {
                 Value::Array(a) => Some(IterFault { j: a[0].as_u64()?, kind: a[1].as_str()?.to_string(), val: a[2].as_u64()? as usize }),
                 _ => None,
             },
+            ci: v["ci"].as_bool().unwrap_or(false),
         })
     }
 }
@@ -549,7 +561,7 @@ pub fn check_case(re: &Regex, case: &Case, m: &Matches, st: &mut Stats) -> Optio
 }
 
 fn class_of(case: &Case) -> Option<(String, String)> {
-    let re = compile(&case.pattern)?;
+    let re = compile_opt(&case.pattern, case.ci)?;
     let m = fault_free_matches(&re, &case.text);
     let mut st = Stats::default();
     check_case(&re, case, &m, &mut st).map(|f| (f.class, f.detail))
@@ -706,7 +718,7 @@ fn reuse(re: &Regex, text: &str, n: usize, rep: &Rep, m: &Matches) -> Option<Fou
 }
 
 fn replay_reuse(case: &Value) -> Option<(String, String)> {
-    let re = compile(case["pattern"].as_str()?)?;
+    let re = compile_opt(case["pattern"].as_str()?, case["ci"].as_bool().unwrap_or(false))?;
     let text = case["text"].as_str()?;
     let m = fault_free_matches(&re, text);
     let rep = Rep::from_json(&case["rep"])?;
@@ -714,7 +726,7 @@ fn replay_reuse(case: &Value) -> Option<(String, String)> {
 }
 
 fn replay_equivalence(case: &Value) -> Option<(String, String)> {
-    let re = compile(case["pattern"].as_str()?)?;
+    let re = compile_opt(case["pattern"].as_str()?, case["ci"].as_bool().unwrap_or(false))?;
     let fault = match &case["fault"] {
         Value::Array(a) => Some(IterFault { j: a[0].as_u64()?, kind: a[1].as_str()?.to_string(), val: a[2].as_u64()? as usize }),
         _ => None,
@@ -815,7 +827,10 @@ fn job(seed: u64, i: u64) -> (JobOut, Option<Violation>) {
             }
             (ast.render(), Some(ast))
         };
-        let Some(re) = compile(&pattern) else { continue };
+        // now and then the whole case runs on a regex built with the builder's case-insensitive
+        // option: every path of the replace (and the model's match sequence) must see it
+        let ci = rng.chance(1, 10);
+        let Some(re) = compile_opt(&pattern, ci) else { continue };
         for _ in 0..3 {
             let text = gen::gen_text(&mut rng, 8);
             let m = fault_free_matches(&re, &text);
@@ -831,7 +846,7 @@ fn job(seed: u64, i: u64) -> (JobOut, Option<Violation>) {
                 2 => Entry::ReplaceAll,
                 _ => Entry::TryReplacen,
             };
-            let mut case = Case { pattern: pattern.clone(), text: text.clone(), n, rep, entry, fault: None };
+            let mut case = Case { pattern: pattern.clone(), text: text.clone(), n, rep, entry, fault: None, ci };
             let mut found = check_case(&re, &case, &m, &mut out.st);
             let nmatches = m.find.iter().filter(|i| matches!(i, Item::Match(..))).count();
             let mut fired_any = false;
@@ -843,7 +858,7 @@ fn job(seed: u64, i: u64) -> (JobOut, Option<Violation>) {
                 out.st.equivalence_groups += 1;
                 let s = rng.pick(&["X", "", "é-"]).to_string();
                 if let Some(f) = equivalence(&re, &text, n, &s) {
-                    let replay = json!({"kind": "c11-equivalence", "pattern": pattern, "text": text, "n": n, "s": s});
+                    let replay = json!({"kind": "c11-equivalence", "ci": ci, "pattern": pattern, "text": text, "n": n, "s": s});
                     return (out, Some(Violation::new(PROP, &f.class, f.detail, replay)));
                 }
             }
@@ -851,7 +866,7 @@ fn job(seed: u64, i: u64) -> (JobOut, Option<Violation>) {
             if found.is_none() && rng.chance(1, 2) {
                 out.st.reuse_checks += 1;
                 if let Some(f) = reuse(&re, &text, effective_n(&case), &case.rep, &m) {
-                    let replay = json!({"kind": "c11-reuse", "pattern": pattern, "text": text, "n": effective_n(&case), "rep": case.rep.to_json()});
+                    let replay = json!({"kind": "c11-reuse", "ci": ci, "pattern": pattern, "text": text, "n": effective_n(&case), "rep": case.rep.to_json()});
                     return (out, Some(Violation::new(PROP, &f.class, f.detail, replay)));
                 }
             }
@@ -888,7 +903,7 @@ fn job(seed: u64, i: u64) -> (JobOut, Option<Violation>) {
                                 let s = rng.pick(&["X", "", "é-"]).to_string();
                                 if let Some(f) = equivalence_under(&re, &text, effective_n(&case), &s, &case.fault) {
                                     let fl = case.fault.as_ref().map(|f| json!([f.j, f.kind, f.val]));
-                                    let replay = json!({"kind": "c11-equivalence", "pattern": pattern, "text": text, "n": effective_n(&case), "s": s, "fault": fl});
+                                    let replay = json!({"kind": "c11-equivalence", "ci": ci, "pattern": pattern, "text": text, "n": effective_n(&case), "s": s, "fault": fl});
                                     return (out, Some(Violation::new(PROP, &f.class, f.detail, replay)));
                                 }
                             }
